@@ -510,7 +510,13 @@ fn was_modified(files: &[PathAndMetadata], after: DateTime<FixedOffset>, log: &d
         ..
     } in files.iter()
     {
-        match m.modified() {
+        // The metadata follow symbolic links. If the path itself has been replaced by a link,
+        // the link is newer than the report even if the file it points to is not.
+        let link_modified = std::fs::symlink_metadata(p.to_path_buf()).and_then(|lm| lm.modified());
+        match m.modified().map(|t| match link_modified {
+            Ok(lt) if lt > t => lt,
+            _ => t,
+        }) {
             Ok(file_timestamp) => {
                 let file_timestamp: DateTime<Local> = file_timestamp.into();
                 if file_timestamp > after {
